@@ -59,6 +59,8 @@ def _declared():
         (gated_body.with_classical_controls("k"), (), ("k", "m")),                      # a control around an operation that has control keys of its own
         (measuring_body, ("k",), ()),
         (cirq.measure_single_paulistring(cirq.X(a) * cirq.Z(b), key="m"), ("m",), ()),
+        (-cirq.PauliString(), (), ()), (cirq.global_phase_operation(1j), (), ()),          # operations on no qubit at all (the first one is a sized container of length 0)
+        (cirq.X(a) * cirq.Z(c), (), ()),                                                     # a Pauli string used as an operation
     ]
     table += [(g.on(q_), mk, ()) for g, q_, mk in _custom_recorders(a, b, c)]
     if hasattr(cirq, "If"):
